@@ -165,4 +165,89 @@ theorem ppf_mid (c : Cfg) (fam : IsiFamily) (hlaw : RangeLaw fam) (hp : ParamOk 
         have := hlaw.upper d l (u - l) p q hfit h0 h1
         linarith
 
+theorem ok_triple {α β γ ε} {a a' : α} {b b' : β} {c c' : γ}
+    (h : (Except.ok (a, b, c) : Except ε (α × β × γ)) = .ok (a', b', c')) : a' = a := by
+  injection h with h; injection h with h1; exact h1.symm
+
+theorem interpOnLength_length (cdf : List Rat) (m : Nat) : (interpOnLength cdf m).length = m := by
+  simp [interpOnLength, interp, linspace_length]
+
+theorem qmapXonY_length (c : Cfg) (x y : List Rat) : (qmapXonY c x y).length = x.length := by
+  unfold qmapXonY
+  cases c.modeNpqm
+  · simp [qmap_length]
+  · simp [qmapIsimip, interp, rankAvg]
+
+theorem premap_length (c : Cfg) (Fns Fbt : List Rat) :
+    (if (c.hasThreshold && decide (Fbt.length > 0)) = true then qmapXonY c Fns Fbt else Fns).length = Fns.length := by
+  split
+  · exact qmapXonY_length c Fns Fbt
+  · rfl
+
+theorem elaProbabilities_length (o : Oracles) (a b d : List Rat) (ha : a.length = d.length) (hb : b.length = d.length) :
+    (elaProbabilities o a b d).length = d.length := by
+  simp [elaProbabilities, ha, hb]
+
+/-- what `_step6_adjust_values_between_thresholds` returns: one value per entry, none beyond a threshold -/
+theorem adjustBetween_spec (c : Cfg) (fam : IsiFamily) (o : Oracles) (Obt OFbt Hbt Fns Fbt v : List Rat)
+    (br : Branch) (pre : Bool)
+    (hOF : OFbt ≠ []) (hb : ∀ w ∈ OFbt, Between c w)
+    (hfam : c.nonparametricQm = true ∨ (RangeLaw fam ∧ ParamOk c))
+    (hexpit : c.eventLikelihoodAdjustment = true → ∀ x, 0 < o.expit x ∧ o.expit x < 1)
+    (h : adjustBetween c fam o Obt OFbt Hbt Fns Fbt = .ok (v, br, pre)) :
+    v.length = Fns.length ∧ ∀ e ∈ v, Mid c e := by
+  have fb : ∀ X : List Rat, X.length = Fns.length → v = qmap c.ecdfMethod c.iecdfMethod X OFbt X →
+      v.length = Fns.length ∧ ∀ e ∈ v, Mid c e := by
+    intro X hX hv
+    subst hv
+    exact ⟨by rw [qmap_length, hX], fun e he => (qmap_between c _ _ X OFbt X hOF hb he).mid⟩
+  unfold adjustBetween at h
+  split at h
+  · exact fb Fns rfl (ok_triple h)
+  · rename_i hnp
+    have hlaw : RangeLaw fam ∧ ParamOk c := by
+      rcases hfam with h1 | h1
+      · exact absurd h1 hnp
+      · exact h1
+    dsimp only at h
+    split at h
+    · exact fb _ (premap_length c Fns Fbt) (ok_triple h)
+    · split at h
+      · exact fb _ (premap_length c Fns Fbt) (ok_triple h)
+      · cases hfa : fixedArgs c with
+        | error e => rw [hfa] at h; simp [bind, Except.bind] at h
+        | ok fa =>
+          obtain ⟨floc, fscale⟩ := fa
+          rw [hfa] at h
+          simp only [bind, Except.bind] at h
+          split at h
+          · rename_i fitF fitOF hfitF hfitOF
+            split at h
+            · exact fb _ (premap_length c Fns Fbt) (ok_triple h)
+            · split at h
+              · have hv := ok_triple h
+                subst hv
+                refine ⟨by rw [List.length_map, List.length_map]; exact premap_length c Fns Fbt, ?_⟩
+                intro e he
+                simp only [List.mem_map] at he
+                obtain ⟨q, ⟨x, -, rfl⟩, rfl⟩ := he
+                exact ppf_mid c fam hlaw.1 hlaw.2 floc fscale hfa OFbt fitOF hfitOF _ (thrCdf_open _).1 (thrCdf_open _).2
+              · rename_i hela
+                have hela' : c.eventLikelihoodAdjustment = true := by simpa using hela
+                split at h
+                · have hv := ok_triple h
+                  subst hv
+                  refine ⟨?_, ?_⟩
+                  · rw [List.length_map, elaProbabilities_length o _ _ _ (interpOnLength_length _ _) (interpOnLength_length _ _)]
+                    rw [List.length_map]; exact premap_length c Fns Fbt
+                  · intro e he
+                    rw [List.mem_map] at he
+                    obtain ⟨q, hq, rfl⟩ := he
+                    unfold elaProbabilities at hq
+                    rw [List.mem_map] at hq
+                    obtain ⟨z, -, rfl⟩ := hq
+                    exact ppf_mid c fam hlaw.1 hlaw.2 floc fscale hfa OFbt fitOF hfitOF _ (hexpit hela' z).1 (hexpit hela' z).2
+                · exact absurd h (by simp)
+          · exact fb _ (premap_length c Fns Fbt) (ok_triple h)
+
 end Lemmas.C10
